@@ -28,6 +28,7 @@ type layoutStep struct {
 	end   int64  // decoder only (-1 = open)
 	pos   token.Pos
 	conv  *ast.CallExpr // encoder: the uintN(...) conversion
+	order string        // uint steps: byte order type (bigEndian / littleEndian)
 }
 
 func (s layoutStep) String() string {
@@ -80,6 +81,7 @@ func runC18(c *Check) {
 	c18DecodersValidate(c, pk, codecs)
 	c18Panics(c)
 	c18ProtoNil(c, pk)
+	c18StreamProofs(c)
 }
 
 func c18ConstInt(p *Program, pkgPath, name string) int64 {
@@ -228,8 +230,9 @@ func c18EncoderSteps(c *Check, pk *packages.Package, k *idCodec, nsSize int64) [
 			return true
 		}
 		if w, ok := uintWidth[fn.Name()]; ok && pkgPathOf(fn) == "encoding/binary" && strings.HasPrefix(fn.Name(), "Append") && len(call.Args) == 2 {
-			st := layoutStep{kind: "uint", width: w, field: selectorField(pk, call.Args[1]), pos: call.Pos()}
-			if cv, ok := ast.Unparen(call.Args[1]).(*ast.CallExpr); ok {
+			arg := c18ResolveLocal(pk, k.enc.Body, call.Args[1])
+			st := layoutStep{kind: "uint", width: w, field: selectorField(pk, arg), pos: call.Pos(), order: c18Order(fn)}
+			if cv, ok := ast.Unparen(arg).(*ast.CallExpr); ok {
 				st.conv = cv
 			}
 			steps = append(steps, st)
@@ -307,7 +310,7 @@ func c18DecoderSteps(c *Check, pk *packages.Package, k *idCodec, nsSize int64) (
 			}
 			switch {
 			case pkgPathOf(fn) == "encoding/binary" && uintWidth[fn.Name()] > 0:
-				steps = append(steps, layoutStep{kind: "uint", width: uintWidth[fn.Name()], off: lo, end: hi, pos: x.Pos()})
+				steps = append(steps, layoutStep{kind: "uint", width: uintWidth[fn.Name()], off: lo, end: hi, pos: x.Pos(), order: c18Order(fn)})
 			case strings.HasSuffix(fn.Name(), "FromBinary") && pkgPathOf(fn) == pkgShwap:
 				steps = append(steps, layoutStep{kind: "nested", typ: strings.TrimSuffix(fn.Name(), "FromBinary"), off: lo, end: hi, pos: x.Pos()})
 			case fn.Name() == "NewNamespaceFromBytes":
@@ -428,7 +431,7 @@ func c18Layout(c *Check, pk *packages.Package, k *idCodec, all map[string]*idCod
 	same := len(enc) == len(dec)
 	if same {
 		for i := range enc {
-			if enc[i].kind != dec[i].kind || enc[i].width != dec[i].width || enc[i].field != dec[i].field || enc[i].typ != dec[i].typ {
+			if enc[i].kind != dec[i].kind || enc[i].width != dec[i].width || enc[i].field != dec[i].field || enc[i].typ != dec[i].typ || enc[i].order != dec[i].order {
 				same = false
 			}
 		}
@@ -836,4 +839,48 @@ func c18ProtoNil(c *Check, pk *packages.Package) {
 		c.Ob("R18.6", f.Name(), ok, p.Pos(f.Pos()), "pointer argument is nil-tested before any non-getter use")
 	}
 	c.Floor("R18.6", "FromProto converters with pointer argument", n, 4)
+}
+
+// c18Order names the byte order of an encoding/binary method (its receiver type).
+func c18Order(fn *types.Func) string {
+	if rn := recvNamed(fn); rn != nil {
+		return rn.Obj().Name()
+	}
+	return ""
+}
+
+// c18ResolveLocal replaces an identifier of a local variable that is defined
+// exactly once in body (x := expr) by that expression, so that
+// `idx := uint16(id.F); AppendUint16(data, idx)` reads like the inline form.
+func c18ResolveLocal(pk *packages.Package, body *ast.BlockStmt, e ast.Expr) ast.Expr {
+	for depth := 0; depth < 4; depth++ {
+		id, ok := ast.Unparen(e).(*ast.Ident)
+		if !ok {
+			return e
+		}
+		obj := pk.TypesInfo.Uses[id]
+		if obj == nil {
+			return e
+		}
+		var def ast.Expr
+		n := 0
+		ast.Inspect(body, func(nd ast.Node) bool {
+			as, ok := nd.(*ast.AssignStmt)
+			if !ok || len(as.Lhs) != len(as.Rhs) {
+				return true
+			}
+			for i, l := range as.Lhs {
+				if lid, ok := l.(*ast.Ident); ok && (pk.TypesInfo.Defs[lid] == obj || pk.TypesInfo.Uses[lid] == obj) {
+					n++
+					def = as.Rhs[i]
+				}
+			}
+			return true
+		})
+		if n != 1 || def == nil {
+			return e
+		}
+		e = def
+	}
+	return e
 }
